@@ -99,3 +99,45 @@ Theorem C02_gemmx_customise_sound :
     exists q, In (q, SOp i) out /\ sp_ub q = sp_ub p /\ sp_ts q = sp_ts p.
 Proof. exact gemmx_customise_sound. Qed.
 Print Assumptions C02_gemmx_customise_sound.
+
+(* 5. xDMA set_stride_patterns (Model/C02Xdma.v).  Every extension except `add` returns the patterns
+      unchanged, each operand on its own pointer; `add` keeps the output and streams ONLY input 0, widened
+      by an innermost temporal dimension (2, 512 bytes). *)
+From Snax Require Import Model.C02Xdma Proofs.C02XdmaProofs.
+Theorem C02_xdma_customise_sound :
+  forall k ps out, xdma_customise k ps = Some out ->
+  match k with
+  | XDefault => map fst out = ps /\ map snd out = map SOp (seq 0 (List.length ps))
+  | XAdd => exists p0 rest, ps = p0 :: rest /\
+              out = [(xadd_pattern p0, SOp 0); (last ps p0, SOp (List.length ps - 1))]
+  end.
+Proof. exact xdma_customise_sound. Qed.
+Print Assumptions C02_xdma_customise_sound.
+
+(* what the widened pattern streams: every temporal step of input 0 becomes two steps, the same words and
+   the same words 512 bytes further (for all patterns and spatial geometries) *)
+Theorem C02_xadd_words :
+  forall p spats,
+  pattern_words (xadd_pattern p) spats =
+  flat_map (fun o => map (fun w => o + w) (step_words p spats) ++ map (fun w => o + XADD_STRIDE + w) (step_words p spats))
+           (step_offsets p).
+Proof. exact xadd_words. Qed.
+Print Assumptions C02_xadd_words.
+
+(* hence, inside the Safe class (input 1 is streamed exactly like input 0 and lives 512 bytes after it) the
+   single reader fetches, step by step, input 0's words followed by input 1's ... *)
+Theorem C02_xadd_sound_partial :
+  forall base0 base1 p0 p1 spats, xadd_adjacentb base0 base1 p0 p1 = true ->
+  map (fun w => base0 + w) (pattern_words (xadd_pattern p0) spats) =
+  concat (map (fun ab => fst ab ++ snd ab) (combine (abs_steps base0 p0 spats) (abs_steps base1 p1 spats))).
+Proof. exact xadd_sound_partial. Qed.
+Print Assumptions C02_xadd_sound_partial.
+
+(* ... and outside it the full statement is false (known finding F41, class xdma_add_second_operand_assumed) *)
+Theorem C02_xadd_refuted :
+  let p := mkSP [2] [64] [8] in
+  xadd_adjacentb 0 4096 p p = false /\
+  map (fun w => 0 + w) (pattern_words (xadd_pattern p) [8]) <>
+  concat (map (fun ab => fst ab ++ snd ab) (combine (abs_steps 0 p [8]) (abs_steps 4096 p [8]))).
+Proof. exact xadd_refuted. Qed.
+Print Assumptions C02_xadd_refuted.
